@@ -321,7 +321,19 @@ class Check:
                     if r is None:
                         r = {"id": c["id"], "crash": True, "log": out[-500:]}
                     results[c["id"]] = r
-        return [results[c["id"]] for c in cases]
+        out = [results[c["id"]] for c in cases]
+        # wake-up contract (harness/src/lib.rs): a poll that returned Pending although no scripted
+        # transport was pending in it and nobody woke the task would sleep for ever under a real executor
+        shown = 0
+        for c, r in zip(cases, out):
+            if r.get("lost_wakeups") and shown < 3:
+                shown += 1
+                slim = {k: v for k, v in r.items() if k not in ("segs", "oracles", "writes")}
+                self.violation("a future returned Pending %d time(s) although the transport was not pending and no "
+                               "wake-up was arranged: under a real executor the task would sleep although it can make "
+                               "progress" % r["lost_wakeups"], {"case": c, "impl": slim, "harness": binname},
+                               tag="wake%s" % c["id"])
+        return out
 
     # ---------------------------------------------------------------- reporting
     def write_replay(self, tag, obj):
